@@ -404,8 +404,10 @@ def run(ctx: Ctx):
     ms_vals = sorted(ms_vals)
     counts = sorted(set(list(range(0, 20000 if q else 70000)) + [2**k + d for k in range(7, 31) for d in (-2, -1, 0, 1) if 0 <= 2**k + d < 2**31]
                         + [2**31 - 1] + [rnd.randrange(2**31) for _ in range(2000)]))
-    signed = sorted(set(list(range(-20000, 20001)) + [s * (2**k + d) for k in range(6, 30) for d in (-1, 0, 1) for s in (-1, 1)]
-                        + [rnd.randint(-(2**30), 2**30) for _ in range(2000)]))
+    signed = sorted(set(list(range(-20000, 20001)) + [s * (2**k + d) for k in range(6, 31) for d in (-1, 0, 1) for s in (-1, 1)]
+                        + [2**31 - 1, -(2**31), -(2**31) + 1, 2**31 - 2, 2**30, -(2**30) - 1]
+                        + [rnd.randint(-(2**31), 2**31 - 1) for _ in range(3000)]))
+    signed = [c for c in signed if -(2**31) <= c <= 2**31 - 1]
     offsets = list(range(-64800, 64801, 1 if not q else 7)) + [64800, -64800]
 
     def chunks(kind, vals, n=16):
